@@ -64,7 +64,11 @@ def build(S, tier):
                 atoms = AtomsFB(I, n, calc=calc)
                 lo, hi, ref = I.path.fresh("lo"), I.path.fresh("hi"), I.path.fresh("ref")
                 I.path.assume(z3.And(lo.t <= hi.t, ref.t > 0))
-                mc = I.call(I.get_class(FB), [atoms, lo, hi], {"reference_variance": ref, "seed": 1, "scheme": scheme, "update_function": uf})
+                ref_init = I.path.fresh("ref_at_construction")
+                I.path.assume(ref_init.t > 0)
+                mc = I.call(I.get_class(FB), [atoms, lo, hi], {"reference_variance": ref_init, "seed": 1, "scheme": scheme, "update_function": uf})
+                # the reference variance is a public attribute: the clauses refer to its CURRENT value
+                I.setattr(mc, "reference_variance", ref)
                 I.call(I.getattr(mc, "update_delta"), [], {})
                 d1, v1 = rep(mc.attrs["delta"]), rep(mc.attrs["variation_coef"])
                 shape_ok = True
